@@ -5,7 +5,7 @@ ENTRY = {'title': 'Payload decoding conforms to the ecoNET wire layout for every
  'technique': 'Lean 4 round-trip theorems decode(encode m ++ rest) = (valOf m, rest) for every structure and the whole sensor chain (wire layout '
               'written once as encoders = the specification) + correspondence: Lean-encoded messages decoded by the real frames, plus a malformed '
               'stream',
- 'prop_modules': ['C05Sensors', 'C05Params', 'C05Ctx', 'C05CtxDevice', 'C05Device', 'C05Short', 'C05Uid', 'C05ShortParams', 'TieUid', 'TieParams', 'TieSchedule', 'TieStructParams', 'TieStructSensors', 'TieStructSections', 'TieStructSchedules'],
+ 'prop_modules': ['C05Sensors', 'C05Params', 'C05Ctx', 'C05CtxDevice', 'C05Device', 'C05Short', 'C05Uid', 'C05ShortParams', 'TieUid', 'TieParams', 'TieSchedule', 'TieStructParams', 'TieStructSensors', 'TieStructSections', 'TieStructSections2', 'TieStructSchedules'],
  'uses_tables': True,
  'level_text': 'Proof: for ALL well-formed abstract messages and ALL trailing bytes the decoder model run on the Lean-defined encoding returns '
                'exactly the encoded values and the remainder: the 16-section sensor chain (`rt_sensorData`, every presence combination; per-section '
@@ -28,7 +28,21 @@ ENTRY = {'title': 'Payload decoding conforms to the ecoNET wire layout for every
  'level_note': 'All structures have a round-trip theorem. Rests on correspondence: model <-> structures/*.py, purity, error classes of malformed '
                'payloads, formatted model name (printable ASCII only), UTF-8 validity = bytes.decode. Trusted: struct float conversion, inet_ntop '
                'text.',
- 'clauses': {'code tie of the schedules structure (round 8): the SOURCE TEXT of SchedulesStructure._unpack_schedule / .decode, translated on every run, equals '
+ 'clauses': {'code tie of the remaining sensor sections (round 8, fourth leg): the SOURCE TEXT of StatusesStructure / OutputsStructure / LambdaSensorStructure / '
+             'TemperaturesStructure .decode and of FrameVersionsStructure (._unpack_frame_versions, .decode), translated on every run, equals Sens.decStatuses / '
+             'decOutputs / decLambda / decTemperatures / decVersion / decFrameVersions (the model function is on the right-hand side of each theorem) for every '
+             'message, every NATURAL offset (negative offsets not covered) and every data argument that is None or a string-keyed dict — merged fields '
+             '(rendering fieldV; lambda_level = level / 10 as the EXACT rational Py.ratioV level 10 = Val.ratio level 10 (fieldV2): CPython answers the float nearest to '
+             'it, trusted contract of Py.truediv; int(math.pow(2, i)) = 2^i trusted for 0 <= i <= 1023), returned offset (off + 4; lambda: off + 1 when the state '
+             'byte is 0xFF, else off + 4; temperatures off + 1 + 5*count; frame versions off + 1 + 3*count), exception class by the byte / slot that is cut; '
+             'LambdaState(x) / FrameType(x) under suppress(ValueError) leave the number (an IntEnum member is its int in the value domain); temperatures: item '
+             'assignments in order = the model\'s dict(pairs) merged into data (a later entry of the same name overwrites, NaN and out-of-range indexes skipped; the '
+             'mutation of the caller\'s data object is not modelled); frame versions: dict(generator) = versionsVal (a later duplicate overwrites, first position kept, '
+             'unknown frame types kept as numbers) — the dict C15 consumes; the instance after a successful call (frame versions), not after an exception':
+                 'theorem (TieStructSections2.statuses_decode_eq, outputs_decode_eq, lambda_decode_eq, temperatures_decode_eq, temperatures_decode_model, '
+                 'unpack_version_eq, version_fold, dict_versions, frame_versions_decode_eq, frame_versions_decode_model, setAll_assocOf, tempFields_pairs, the *_rest lemmas) '
+                 '+ translator validation (harness/pycode.py group sensors)',
+             'code tie of the schedules structure (round 8): the SOURCE TEXT of SchedulesStructure._unpack_schedule / .decode, translated on every run, equals '
              'Sched.decodeWeek / Sched.decodeResponse for every message, every NATURAL offset (negative offsets not covered), every instance and every data '
              'argument that is None or a string-keyed dict: (index, week) per entry, returned offset offset + 3 + 47*count, IndexError when the model '
              'fails, fewer than 3 bytes = no schedules with the offset unchanged; the schedule_parameters list is stated from the raw bytes (rawParams, '
